@@ -83,6 +83,17 @@ def worker(args):
             rows = after_loop_probe(rng, rows)
         try:
             twin = S.desugar(rows)
+        except S.DesugarRenderError as e:
+            # the desugared form cannot be instantiated (a delivered row names an undefined
+            # variable, e.g. a loop variable after end_for): the sugared sheet must be rejected too
+            r1 = compile_flow_sheet(G.HEADERS, rows)
+            if r1.ok:
+                bump("violation")
+                bad.append({"rows": rows, "detail": {"what": "the sugared sheet compiles although its desugared form cannot be instantiated: " + str(e)}})
+            else:
+                bump("both_rejected")
+                bump("both_rejected_uninstantiable")
+            continue
         except S.DesugarError:
             bump("malformed")
             continue
@@ -110,6 +121,10 @@ def shrink(drv, rows):
     def failing(rs):
         try:
             tw = S.desugar(rs)
+        except S.DesugarRenderError as e:
+            if compile_flow_sheet(G.HEADERS, rs).ok:
+                return {"what": "the sugared sheet compiles although its desugared form cannot be instantiated: " + str(e)}
+            return None
         except S.DesugarError:
             return None
         v, d = compare(drv, rs, tw)
@@ -217,8 +232,8 @@ def run(ck: core.Check):
             det = det or b["detail"]
             try:
                 twin_csv = rows_to_csv(G.HEADERS, S.desugar(rows))
-            except S.DesugarError:
-                twin_csv = None
+            except S.DesugarError as e:
+                twin_csv = f"(cannot be instantiated: {e})"
             ck.violation(det.get("what", "sugared and desugared differ"),
                          {"sugared_csv": rows_to_csv(G.HEADERS, rows), "desugared_csv": twin_csv, "rows": rows, "detail": det})
     ck.extra["certificate_pairs_validated"] = total_pairs
